@@ -261,6 +261,8 @@ def _layout_x(rng, cls, big):
     if cls == 'float':
         if r < 0.5:
             x = x + rng.uniform(-100.0, 1000.0)
+        elif r < 0.62:
+            x = x * 10.0 ** -int(rng.integers(8, 13))        # small units: total range 1e-7 .. 1e-12 (the rule is scale invariant)
     elif r < 0.35:
         x = x + float(rng.integers(-50, 1000))
     elif r < 0.45 and cls == 'dyadic':
@@ -324,6 +326,13 @@ def make_case(rng, big=False):
     cls = CLASSES[int(rng.choice(len(CLASSES), p=CWEIGHTS))]
     x = _layout_x(rng, cls, big)
     n = len(x)
+    if rng.random() < 0.05:
+        # epoch nanoseconds as int64: sums of a handful of coordinates exceed 2**63, differences do not
+        n = int(rng.integers(6, 40))
+        x = 1.7e18 + np.cumsum(rng.integers(1, 9, n)).astype(float) * 4096.0 * float(2 ** int(rng.integers(0, 12)))
+        pts = np.ascontiguousarray(np.column_stack((x, rng.integers(0, 10, n).astype(float))))
+        return {'points': pts, 'class': 'epoch-ns-int64', 'layout': 'i64',
+                'ts': _thresholds(rng, x, 'int'), 'ladder': _ladder(rng, x)}
     if cls != 'float' and bool(np.all(x == np.round(x))) and rng.random() < 0.5:
         y = rng.integers(0, 10, n).astype(float)
     else:
